@@ -403,6 +403,29 @@ func pngBytes(c choice.Chooser) []byte {
 func paramMessage(c choice.Chooser, key string) ([]byte, string) {
 	j := func(v any) []byte { b, _ := json.Marshal(v); return b }
 	k := shortType(key)
+	// the zero value of the parameter's type is a value like any other
+	// (black transparent, empty box, false, 0, "") - and differs from the
+	// default for some registered types
+	if strings.Contains(k, "Value[") && c.Intn("param:zero", 8) == 7 {
+		switch {
+		case strings.Contains(k, "Value[float64]"), strings.Contains(k, "Value[int]"):
+			return []byte("0"), "0 (zero value)"
+		case strings.Contains(k, "Value[string]"):
+			return []byte(`""`), `"" (zero value)`
+		case strings.Contains(k, "Value[bool]"):
+			return []byte("false"), "false (zero value)"
+		case strings.Contains(k, "Value[vector/vector2"):
+			return j(vector2.Zero[float64]()), "zero vector2"
+		case strings.Contains(k, "Value[vector/vector3"):
+			return j(vector3.Zero[float64]()), "zero vector3"
+		case strings.Contains(k, "Value[[]vector/vector3"):
+			return []byte("[]"), "empty array"
+		case strings.Contains(k, "geometry.AABB"):
+			return j(geometry.AABB{}), "zero AABB"
+		case strings.Contains(k, "coloring.WebColor"):
+			return j(coloring.WebColor{}), "zero colour"
+		}
+	}
 	switch {
 	case strings.HasSuffix(k, "parameter.File"):
 		n := c.Intn("file:len", 12)
